@@ -11,6 +11,7 @@ package rotime
 //@   props C18
 //@   binds value d
 //@   calls Add
+//@   params value
 //@   maypanic
 //@   track call.*
 //@   ensures [calls-the-wrapped-function-once|C18] count(call.ANY) == 1 && called(call.Time.Add)
@@ -21,6 +22,7 @@ package rotime
 //@   props C18
 //@   binds value years months days
 //@   calls AddDate
+//@   params value
 //@   maypanic
 //@   track call.*
 //@   ensures [calls-the-wrapped-function-once|C18] count(call.ANY) == 1 && called(call.Time.AddDate)
@@ -31,6 +33,7 @@ package rotime
 //@   props C18
 //@   binds value format
 //@   calls Format
+//@   params value
 //@   maypanic
 //@   track call.*
 //@   ensures [calls-the-wrapped-function-once|C18] count(call.ANY) == 1 && called(call.Time.Format)
@@ -41,6 +44,7 @@ package rotime
 //@   props C18
 //@   binds value loc
 //@   calls In
+//@   params value
 //@   maypanic
 //@   track call.*
 //@   ensures [calls-the-wrapped-function-once|C18] count(call.ANY) == 1 && called(call.Time.In)
@@ -51,6 +55,7 @@ package rotime
 //@   props C18
 //@   binds value layout
 //@   calls Parse
+//@   params value
 //@   maypanic
 //@   track call.*
 //@   ensures [calls-the-wrapped-function-once|C18] count(call.ANY) == 1 && called(call.Parse)
@@ -61,6 +66,7 @@ package rotime
 //@   props C18
 //@   binds value layout loc
 //@   calls ParseInLocation
+//@   params value
 //@   maypanic
 //@   track call.*
 //@   ensures [calls-the-wrapped-function-once|C18] count(call.ANY) == 1 && called(call.ParseInLocation)
@@ -73,6 +79,7 @@ package rotime
 //@   props C18
 //@   binds value
 //@   calls Date Location
+//@   params value
 //@   maypanic
 //@   track call.*
 //@   ensures [reads-the-civil-date-and-the-zone-of-the-item|C18] count(call.ANY) == 3 && called(call.Time.Date) && called(call.Time.Location) && called(call.Date) && arg(call.Time.Date, 0) == value && arg(call.Time.Location, 0) == value
